@@ -222,6 +222,26 @@ class _:
             exp_c = [posa[k] for k in key(sb) if k in posa]
             if list(common) != exp_c:
                 raise Fail("intersect:large", f"{len(common)} vs {len(exp_c)}")
+            # thousands of rows on both sides, most of them common, B in another order and with repeats
+            A4 = allr[rs.permutation(ncell)[:4000]]
+            B3 = np.vstack([A4[rs.permutation(4000)[:3000]], allr[rs.permutation(ncell)[:200]], A4[:50]])
+            pos4 = {k: i for i, k in enumerate(key(A4))}
+            seen, exp_i = set(), []
+            for k in key(B3).tolist():
+                if k in pos4 and k not in seen:
+                    exp_i.append(pos4[k])
+                seen.add(k)
+            got_i = tt_intersect_rows(A4, B3)
+            if list(got_i) != exp_i:
+                raise Fail("intersect:long-lists", f"{len(got_i)} row indices, set algebra on rows prescribes {len(exp_i)}")
+            inB = set(key(B3).tolist())
+            exp_d = [i for i, k in enumerate(key(A4).tolist()) if k not in inB]
+            if list(tt_setdiff_rows(A4, B3)) != exp_d:
+                raise Fail("setdiff:long-lists", f"expected {len(exp_d)} rows")
+            m4, l4 = tt_ismember_rows(B3, A4)
+            exp_l = np.array([pos4.get(k, -1) for k in key(B3).tolist()])
+            if not np.array_equal(l4, exp_l) or not np.array_equal(m4, exp_l >= 0):
+                raise Fail("ismember:long-lists", f"{int((l4 != exp_l).sum())} locations differ")
             return
         A = ttb.sptensor(sa.copy(), va.copy(), shp)
         B = ttb.sptensor(sb.copy(), vb.copy(), shp)
@@ -348,3 +368,49 @@ class _:
             A[k0] = 0.0 if da[k0] != 0 else -3.0
             da[k0] = 0.0 if da[k0] != 0 else -3.0
         sweep(A, da, "after-" + case["change"])
+
+
+@check("c03.nonfinite", ["C03", "C06"], [
+    "pyttb.sptensor.sptensor.__eq__", "pyttb.sptensor.sptensor.__ne__", "pyttb.sptensor.sptensor._compare",
+    "pyttb.sptensor.sptensor.__mul__", "pyttb.sptensor.sptensor.logical_and", "pyttb.sptensor.sptensor.logical_or",
+    "pyttb.sptensor.sptensor.logical_xor", "pyttb.sptensor.sptensor.logical_not"])
+class _:
+    """Comparison and logical operators on operands that store infinities (as produced by a division by zero), also
+    at the same position in both operands: the answer is the dense answer (inf == inf, not inf != inf, inf is true)."""
+
+    def cases(self, tier, rng):
+        pool = [np.inf, -np.inf, 1.0, -2.0, 3.0]
+        for shp in ((2, 2), (3,), (2, 1, 2)):
+            for pa in patterns(shp, rng, 4, samples=4):
+                for rep in range(2 if tier == "quick" else 5):
+                    pb = [s for s in all_subs(shp) if rng.random() < 0.5]
+                    va = [pool[rng.randrange(len(pool))] for _ in pa]
+                    vb = [pool[rng.randrange(len(pool))] for _ in pb]
+                    common = [s for s in pa if s in pb]
+                    for c in common[:2]:
+                        vb[pb.index(c)] = va[pa.index(c)]          # the same value (possibly an infinity) in both
+                    yield dict(shape=list(shp), asubs=[list(s) for s in pa], avals=va, bsubs=[list(s) for s in pb], bvals=vb)
+
+    def run(self, case):
+        ttb = import_pyttb()
+        shp = tuple(case["shape"])
+        A = mk_sptensor(ttb, shp, case["asubs"], case["avals"])
+        B = mk_sptensor(ttb, shp, case["bsubs"], case["bvals"])
+        da, db = np.zeros(shp), np.zeros(shp)
+        for s, v in zip(case["asubs"], case["avals"]):
+            da[tuple(s)] = v
+        for s, v in zip(case["bsubs"], case["bvals"]):
+            db[tuple(s)] = v
+        for nm in ("eq", "ne", "lt", "le", "gt", "ge", "and", "or", "xor"):
+            f, g = BIN_OPS[nm]
+            for rhs_nm, rhs, drhs in (("sparse", B, db), ("self", A, da), ("dense", ttb.tensor(db.copy()), db), ("inf", np.inf, np.inf), ("zero", 0, 0)):
+                if rhs_nm in ("inf",) and nm in ("and", "or", "xor"):
+                    continue
+                with np.errstate(all="ignore"):
+                    exp = np.asarray(g(da, drhs), dtype=float)
+                    got = expand(ttb, f(A, rhs), f"{nm}({rhs_nm})")
+                if not same(got, exp):
+                    raise Fail(f"{nm}:{rhs_nm}", f"{case}: expected {exp.tolist()} got {got.tolist()}")
+        with np.errstate(all="ignore"):
+            if not same(expand(ttb, A.logical_not(), "not"), _truth(da == 0)):
+                raise Fail("not", f"{case}")
